@@ -46,12 +46,12 @@ def zoo_task(names):
         e = Z[name]
         if not e.has("inv"):
             continue
-        for variant in ("perturbed", "fresh", "zero"):
+        for variant in ("perturbed", "fresh", "zero", "reloaded-in-eval"):
             if variant == "zero" and not (e.has("spline") or name.startswith(("Affine", "Additive", "MaskedAffine"))):
                 continue
             for seed in (0, 1):
                 try:
-                    m = e.build(seed, perturb=(variant == "perturbed"))
+                    m = e.build(seed, perturb=(variant in ("perturbed", "reloaded-in-eval")))
                     if variant == "zero":
                         with torch.no_grad():
                             for p in m.parameters():
@@ -60,6 +60,18 @@ def zoo_task(names):
                     if not e.has("umnn"):
                         m = m.double()
                     m.eval()
+                    if variant == "reloaded-in-eval":
+                        # history: used in evaluation mode (both directions), then another checkpoint is
+                        # loaded into the live object - still in evaluation mode - and used again
+                        dt0 = torch.float32 if e.has("umnn") else torch.float64
+                        x_, y_, c_ = e.x(3, seed + 3, dt0), e.y(3, seed + 3, dt0), e.ctx(3, seed + 3, dt0)
+                        with torch.no_grad():
+                            (m.inverse(y_, c_) if c_ is not None else m.inverse(y_))
+                            (m.forward(x_, c_) if c_ is not None else m.forward(x_))
+                        donor = zoo.prepare(e, e.build(seed + 7, perturb=True), seed + 7)
+                        if not e.has("umnn"):
+                            donor = donor.double()
+                        m.load_state_dict({k: v.clone() for k, v in donor.state_dict().items()})
                 except Exception as ex:  # noqa
                     out["skipped"].append("%s/%s: %r" % (name, variant, ex))
                     break
